@@ -17,6 +17,7 @@ from e3fp.conformer.generator import ConformerGenerator  # noqa: E402
 from e3fp.conformer.generate import generate_conformers  # noqa: E402
 from e3fp.conformer.util import mol_from_smiles, get_conformer_energies_from_mol  # noqa: E402
 
+NO_H_SMILES = ["FC(F)(F)C(F)(F)C(F)(F)F", "ClC(Cl)=C(Cl)C(Cl)(Cl)Cl", "FC(F)(F)C(=O)C(F)(F)C(F)(F)F", "ClC(Cl)(Cl)SSC(Cl)(Cl)Cl"]
 SMILES = ["CC(C)Cc1ccc(cc1)C(C)C(=O)O", "CCCCOC(=O)CCN", "CN1CCC[C@H]1c1cccnc1", "NCCCCC(=O)O", "CCOC(=O)C", "OCC(O)CO",
           "CC(=O)Nc1ccc(O)cc1", "CCN(CC)CC", "C[C@H](N)C(=O)O", "c1ccccc1CCN", "CCCCCC", "O=C(O)CCC(=O)O", "CSCC[C@H](N)C(=O)O",
           "C1CCCCC1O", "FC(F)(F)CCO"]
@@ -66,7 +67,7 @@ class C13(vlib.Check):
     id = "C13"
     props_modules = ["E3fpVerif.Props.C13"]
     gen_items = ["defaults"]
-    rule = ("15 small drug-like molecules x seeded options (num_conf 3-12, first, pool_multiplier 1-2, RMSD cutoff in {-1, 0.2, 0.5, 1.0}, "
+    rule = ("15 small drug-like molecules (from SMILES; with explicit hydrogens and a stored conformer; four hydrogen-free molecules) x seeded options (num_conf 3-12, first, pool_multiplier 1-2, RMSD cutoff in {-1, 0.2, 0.5, 1.0}, "
             "energy window in {None, 0.5, 5}, three force fields, fixed seeds): the pool energies and every RMSD the real loop asked for "
             "are recorded and fed to the model of filter_conformers; the returned molecule is re-measured independently (pairwise "
             "GetBestRMS, SMILES, input unmodified, repeat for bit-identical coordinates); one generator object is reused across molecules. "
@@ -82,7 +83,9 @@ class C13(vlib.Check):
                  "rmsd_cutoff": rng.choice([-1.0, 0.2, 0.5, 0.5, 1.0]), "max_energy_diff": rng.choice([None, None, 0.5, 5.0]),
                  "forcefield": rng.choice(["uff", "uff", "mmff94", "mmff94s"]), "seed": rng.choice([0, 0, 1, 7, 42, 2 ** 31 - 1])}
             self.count("ff:" + o["forcefield"])
-            yield {"t": "gen", "smiles": rng.choice(SMILES), "opts": o}
+            form = rng.choice(["smiles", "smiles", "explicit-h", "no-h"])
+            self.count("input:" + form)
+            yield {"t": "gen", "smiles": rng.choice(NO_H_SMILES) if form == "no-h" else rng.choice(SMILES), "opts": o, "input": form}
         for k in range(2 if self.tier == "quick" else 12):
             self.count("generator-reuse")
             smis = rng.sample(SMILES, 3)
@@ -95,8 +98,20 @@ class C13(vlib.Check):
                                                           "rmsd_cutoff": 0.5, "max_energy_diff": None, "forcefield": "uff", "seed": 5}}
 
     # ------------------------------------------------------------------
-    def _gen(self, case):
+    def _input(self, case):
+        """the input molecule: from SMILES (implicit hydrogens, no conformer), with hydrogens already explicit and one stored
+        conformer (as read from an SDF with removeHs=False), or without any hydrogen at all"""
         mol = mol_from_smiles(case["smiles"], "m")
+        if case.get("input") == "explicit-h":
+            mol = Chem.AddHs(mol)
+            AllChem.EmbedMolecule(mol, randomSeed=11)
+            mol.SetProp("_Name", "m")
+        elif case.get("input") == "no-h":
+            AllChem.EmbedMolecule(mol, randomSeed=11)
+        return mol
+
+    def _gen(self, case):
+        mol = self._input(case)
         (out, vals), rec = record_run(make_gen(case["opts"]), mol)
         return mol, out, vals, rec
 
@@ -159,15 +174,20 @@ class C13(vlib.Check):
                     return {"key": "generator-history-dependent", "what": "a reused generator returns %d conformers for %s, a fresh one %d" % (
                         a.GetNumConformers(), smi, b.GetNumConformers())}
             return None
-        mol = mol_from_smiles(case["smiles"], "m")
-        before = (Chem.MolToSmiles(mol), mol.GetNumConformers(), {k: mol.GetProp(k) for k in mol.GetPropNames(includePrivate=True)})
+        mol = self._input(case)
+
+        def snap(m):
+            return (Chem.MolToSmiles(m), m.GetNumAtoms(), m.GetNumConformers(), [c.GetId() for c in m.GetConformers()], coords(m),
+                    {k: m.GetProp(k) for k in m.GetPropNames(includePrivate=True)})
+        before = snap(mol)
         try:
             (out, vals), rec = record_run(make_gen(o), mol)
         except Exception as e:  # noqa: BLE001
             return {"key": "generation-raises:" + type(e).__name__, "what": "generation raised %r" % e}
-        after = (Chem.MolToSmiles(mol), mol.GetNumConformers(), {k: mol.GetProp(k) for k in mol.GetPropNames(includePrivate=True)})
+        after = snap(mol)
         if after != before:
-            return {"key": "input-modified", "what": "the input molecule was modified"}
+            diff = [n for n, x, y in zip(("smiles", "atoms", "conformers", "conformer ids", "coordinates", "properties"), before, after) if x != y]
+            return {"key": "input-modified:" + case.get("input", "smiles"), "what": "the input molecule was modified (%s)" % ", ".join(diff)}
         target, indices, energies, rmsds = vals
         energies = [float(e) for e in energies]
         rmsds = np.asarray(rmsds)
@@ -198,7 +218,7 @@ class C13(vlib.Check):
         if Chem.MolToSmiles(Chem.RemoveHs(out)) != Chem.MolToSmiles(Chem.MolFromSmiles(case["smiles"])):
             return {"key": "not-same-molecule", "what": "result %s vs input %s" % (Chem.MolToSmiles(Chem.RemoveHs(out)), case["smiles"])}
         # a fixed seed reproduces the result exactly
-        (out2, vals2), _ = record_run(make_gen(o), mol_from_smiles(case["smiles"], "m"))
+        (out2, vals2), _ = record_run(make_gen(o), self._input(case))
         if coords(out2) != coords(out):
             return {"key": "seed-not-reproducible", "what": "two runs with seed %s differ" % o["seed"]}
         return None
